@@ -52,7 +52,7 @@ def finding_for(pid, ob, kf):
 
 
 def write_replay(pid, obligation, payload):
-    d = os.path.join(ROOT, "evidence", "replay")
+    d = os.path.join(os.environ.get("VERIF_EVIDENCE_DIR", os.path.join(ROOT, "evidence")), "replay")
     os.makedirs(d, exist_ok=True)
     name = re.sub(r"[^A-Za-z0-9_.-]+", "_", "%s_%s" % (pid, obligation))[:150] + ".json"
     path = os.path.join(d, name)
@@ -92,7 +92,7 @@ def main(argv):
     if replay:
         return do_replay(pid, replay)
     t0 = time.time()
-    work = os.path.join(ROOT, ".work", pid)
+    work = os.path.join(os.environ.get("VERIF_WORK", os.path.join(ROOT, ".work")), pid)
     if os.path.isdir(work):
         shutil.rmtree(work, ignore_errors=True)
     os.makedirs(work, exist_ok=True)
@@ -251,8 +251,9 @@ def main(argv):
     }
     if ev["coverage"]["programs"] is None:
         del ev["coverage"]["programs"]
-    os.makedirs(os.path.join(ROOT, "evidence"), exist_ok=True)
-    with open(os.path.join(ROOT, "evidence", pid + ".json"), "w") as f:
+    evdir = os.environ.get("VERIF_EVIDENCE_DIR", os.path.join(ROOT, "evidence"))
+    os.makedirs(evdir, exist_ok=True)
+    with open(os.path.join(evdir, pid + ".json"), "w") as f:
         json.dump(ev, f, indent=1)
     print("%s tier=%s obligations=%d discharged=%d bounded=%d findings=%d violations=%d undecided=%d wall=%.1fs" % (
         pid, tier, len(proved_obl), len(proved), len(bounded), len(findings_hit), len(violations), len(undecided),
